@@ -1,6 +1,10 @@
 (** C11 property theorems (statements only; proofs are in Proofs_C11.v). *)
 From AwkV Require Import Layout Valid Proofs_C11.
 From AwkV Require Import Types Proofs_Lists Proofs_ToList.
+(* closure of validity under the operations (second half of C11) and the C17 typing fragment *)
+From AwkV Require Import Base AtAxis Carry Ops_Struct Ops_Flatten Ops_Option Ops_Getitem Ops_Fields Ops_Sort Ops_Reduce
+                         Typing Proofs_CarryValid Proofs_Closure Proofs_Closure2 Proofs_Closure3 Proofs_Closure4
+                         Proofs_Closure5 Proofs_Closure6 Proofs_ClosureAll.
 
 (* The model of validityerror (checks in the C++ order) accepts exactly the layouts
    satisfying the declarative documented rules. *)
@@ -18,3 +22,160 @@ Print Assumptions valid_layouts_have_a_value.
 Theorem value_length_is_layout_length : forall c p vs, Valid p c -> to_list c = Ok vs -> zlen vs = clen c.
 Proof. exact to_list_length. Qed.
 Print Assumptions value_length_is_layout_length.
+
+(* ---------------------------------------------------------------- closure: operations keep layouts valid *)
+(* n-d leaves become RegularArray chains at the start of every structure operation *)
+Theorem closure_expand : forall c p, Valid p c -> Valid p (expand c).
+Proof. exact expand_valid_p. Qed.
+Print Assumptions closure_expand.
+
+(* generic: the at-axis descent keeps validity whenever the action at the axis does ([ax_frag Q]: the list nodes the
+   axis points at satisfy Q; Q's first argument says "directly below an option-type / indexed node") *)
+Theorem closure_at_axis : forall g unk str_ok (Q : bool -> option akind -> content -> bool),
+  (forall u p c cc c', Valid p c -> list_content c = Some cc -> Q u p c = true -> (is_strk p = true -> str_ok = true) ->
+                       g p c = Ok c' -> Valid None c' /\ clen c <= clen c' /\ uplain u c') ->
+  (forall c', unk = Ok c' -> Valid None c' /\ 0 <= clen c' /\ plain c') ->
+  forall c axis c', Valid None c -> ax_frag Q c axis = true -> model_ax g unk str_ok c axis = Ok c' ->
+  Valid None c' /\ clen c <= clen c'.
+Proof. exact model_ax_valid. Qed.
+Print Assumptions closure_at_axis.
+
+(* num, local_index: every valid layout (unions, strings, n-d leaves), every axis *)
+Theorem closure_num : forall axis c c', Valid None c -> num_model axis c = Ok c' -> Valid None c'.
+Proof. exact num_preserves_valid. Qed.
+Print Assumptions closure_num.
+Theorem closure_localindex : forall axis c c', Valid None c -> localindex_model axis c = Ok c' -> Valid None c'.
+Proof. exact localindex_preserves_valid. Qed.
+Print Assumptions closure_localindex.
+
+(* pad_none: the list at the axis must not be a string (there the C++ result is invalid as well: known finding) and its
+   content must not be option-type (the model omits simplify_optiontype) *)
+Theorem closure_rpad_partial : forall target axis c c',
+  Valid None c -> ax_frag Qpad c axis = true -> rpad_model target axis c = Ok c' -> Valid None c'.
+Proof. exact rpad_preserves_valid_partial. Qed.
+Print Assumptions closure_rpad_partial.
+Theorem closure_rpadclip_partial : forall target axis c c',
+  Valid None c -> ax_frag Qpad c axis = true -> rpadclip_model target axis c = Ok c' -> Valid None c'.
+Proof. exact rpadclip_preserves_valid_partial. Qed.
+Print Assumptions closure_rpadclip_partial.
+Theorem closure_combinations_partial : forall n repl axis c c',
+  Valid None c -> ax_frag Qcomb c axis = true -> comb_model n repl axis c = Ok c' -> Valid None c'.
+Proof. exact comb_preserves_valid_partial. Qed.
+Print Assumptions closure_combinations_partial.
+
+(* record fields *)
+Theorem closure_field_partial : forall k c vs c',
+  Valid None c -> to_list c = Ok vs -> fc_frag k false c = true -> field_content k c = Ok c' -> Valid None c'.
+Proof. exact field_content_preserves_valid_partial. Qed.
+Print Assumptions closure_field_partial.
+Theorem closure_field_chars : forall k c c',
+  Valid None c -> chars_ok c = true -> fc_frag k false c = true -> field_content k c = Ok c' -> Valid None c'.
+Proof. exact field_content_preserves_valid_chars. Qed.
+Print Assumptions closure_field_chars.
+Theorem closure_setfield : forall k c what c',
+  Valid None c -> Valid None what -> setfield_model k c what = Ok c' -> Valid None c'.
+Proof. exact setfield_preserves_valid. Qed.
+Print Assumptions closure_setfield.
+
+(* fill_none *)
+Theorem closure_fillna_partial : forall value c c',
+  Valid None c -> Valid None value -> unionlike value = false -> fn_frag c = true ->
+  fillna_model value c = Ok c' -> Valid None c'.
+Proof. exact fillna_preserves_valid_partial. Qed.
+Print Assumptions closure_fillna_partial.
+
+(* flatten: every valid layout that has a value *)
+Theorem closure_flatten : forall axis c vs c',
+  Valid None c -> to_list c = Ok vs -> flatten_model axis c = Ok c' -> Valid None c'.
+Proof. exact flatten_preserves_valid. Qed.
+Print Assumptions closure_flatten.
+Theorem closure_flatten_chars : forall axis c c',
+  Valid None c -> chars_ok c = true -> flatten_model axis c = Ok c' -> Valid None c'.
+Proof. exact flatten_preserves_valid_chars. Qed.
+Print Assumptions closure_flatten_chars.
+
+(* sort / argsort: every valid layout, every axis the model handles *)
+Theorem closure_sort : forall asc argsort axis c c',
+  Valid None c -> sort_model asc argsort axis c = Ok c' -> Valid None c'.
+Proof. exact sort_preserves_valid. Qed.
+Print Assumptions closure_sort.
+
+(* reducers *)
+Theorem closure_reduce_partial : forall r axis mask keepdims c c',
+  Valid None c -> red_frag mask keepdims c axis = true -> reduce_model r axis mask keepdims c = Ok c' -> Valid None c'.
+Proof. exact reduce_preserves_valid_partial. Qed.
+Print Assumptions closure_reduce_partial.
+Theorem closure_reduce_nomask : forall r axis mask keepdims c c',
+  Valid None c -> keepdims || negb mask = true -> reduce_model r axis mask keepdims c = Ok c' -> Valid None c'.
+Proof. exact reduce_preserves_valid_nomask. Qed.
+Print Assumptions closure_reduce_nomask.
+
+(* slicing, all item kinds (integer, range, ellipsis, newaxis, integer arrays, field, fields): no string nodes,
+   option-type / indexed nodes not nested in one another (the model omits simplify_optiontype) *)
+Theorem closure_getitem_partial : forall items c c',
+  Valid None c -> nostr c = true -> gi_frag c = true -> getitem_model items c = Ok c' -> Valid None c'.
+Proof. exact getitem_preserves_valid_partial. Qed.
+Print Assumptions closure_getitem_partial.
+Theorem closure_fields : forall ks c c',
+  Valid None c -> fields_content ks c = Ok c' ->
+  Valid None c' /\ clen c' = clen c /\ (optionlike c = false -> optionlike c' = false).
+Proof. exact fields_content_valid_all. Qed.
+Print Assumptions closure_fields.
+
+(* all of the above, carry and range slicing in one statement *)
+Theorem closure_of_validity_partial : forall c, Valid None c ->
+  (forall axis c', num_model axis c = Ok c' -> Valid None c') /\
+  (forall axis c', localindex_model axis c = Ok c' -> Valid None c') /\
+  (forall target axis c', ax_frag Qpad c axis = true -> rpad_model target axis c = Ok c' -> Valid None c') /\
+  (forall target axis c', ax_frag Qpad c axis = true -> rpadclip_model target axis c = Ok c' -> Valid None c') /\
+  (forall n repl axis c', ax_frag Qcomb c axis = true -> comb_model n repl axis c = Ok c' -> Valid None c') /\
+  (forall k vs c', to_list c = Ok vs -> fc_frag k false c = true -> field_content k c = Ok c' -> Valid None c') /\
+  (forall k what c', Valid None what -> setfield_model k c what = Ok c' -> Valid None c') /\
+  (forall value c', Valid None value -> unionlike value = false -> fn_frag c = true ->
+                    fillna_model value c = Ok c' -> Valid None c') /\
+  (forall axis vs c', to_list c = Ok vs -> flatten_model axis c = Ok c' -> Valid None c') /\
+  (forall asc argsort axis c', sort_model asc argsort axis c = Ok c' -> Valid None c') /\
+  (forall r axis mask keepdims c', red_frag mask keepdims c axis = true ->
+                                   reduce_model r axis mask keepdims c = Ok c' -> Valid None c') /\
+  (forall vs ix c', to_list c = Ok vs -> Forall (fun i => 0 <= i < clen c) ix -> carry c ix = Ok c' -> Valid None c') /\
+  (forall vs a b c', to_list c = Ok vs -> 0 <= a -> a <= b -> b <= clen c -> crange c a b = Ok c' -> Valid None c') /\
+  (forall items c', nostr c = true -> gi_frag c = true -> getitem_model items c = Ok c' -> Valid None c').
+Proof. exact closure_all_partial. Qed.
+Print Assumptions closure_of_validity_partial.
+
+(* ---------------------------------------------------------------- C17 fragment: the type of the result *)
+Theorem expand_keeps_type : forall c p, Valid p c -> type_of_p p (expand c) = type_of_p p c.
+Proof. exact expand_type_p. Qed.
+Print Assumptions expand_keeps_type.
+Theorem expand_keeps_value : forall c p, Valid p c -> to_list (expand c) = to_list c.
+Proof. exact expand_to_list_p. Qed.
+Print Assumptions expand_keeps_value.
+
+(* the type of an at-axis result is computed from the input type alone ([ax_ty]) *)
+Theorem result_type_at_axis : forall h unk_t g unk str_ok,
+  (forall p c cc c', list_content c = Some cc -> g p c = Ok c' -> type_of c' = h (type_of_p p c)) ->
+  (forall c', unk = Ok c' -> type_of c' = unk_t) ->
+  forall c axis c', Valid None c -> model_ax g unk str_ok c axis = Ok c' ->
+  ax_ty h unk_t (type_of c) 0 axis = Ok (type_of c').
+Proof. exact model_ax_type. Qed.
+Print Assumptions result_type_at_axis.
+(* num: the structure above the axis with int64 in place of the lists at the axis *)
+Theorem result_type_num : forall axis c c',
+  Valid None c -> num_model axis c = Ok c' -> num_ty (type_of c) axis = Ok (type_of c').
+Proof. exact Proofs_Closure5.result_type_num. Qed.
+Print Assumptions result_type_num.
+Theorem result_type_localindex : forall axis c c',
+  Valid None c -> localindex_model axis c = Ok c' -> localindex_ty (type_of c) axis = Ok (type_of c').
+Proof. exact Proofs_Closure5.result_type_localindex. Qed.
+Print Assumptions result_type_localindex.
+(* typing preservation: the values of the result have the predicted type *)
+Theorem num_result_typed : forall axis c c' ws,
+  Valid None c -> num_model axis c = Ok c' -> to_list c' = Ok ws ->
+  exists t', num_ty (type_of c) axis = Ok t' /\ Forall (has_type t') ws.
+Proof. exact Proofs_Closure5.num_result_typed. Qed.
+Print Assumptions num_result_typed.
+Theorem localindex_result_typed : forall axis c c' ws,
+  Valid None c -> localindex_model axis c = Ok c' -> to_list c' = Ok ws ->
+  exists t', localindex_ty (type_of c) axis = Ok t' /\ Forall (has_type t') ws.
+Proof. exact Proofs_Closure5.localindex_result_typed. Qed.
+Print Assumptions localindex_result_typed.
